@@ -512,7 +512,9 @@ class Engine:
             rec["model"] = self._model_summary(model) if model is not None else None
             rec["smt2"] = self._smt2(z3.Not(goal))
             rec["detail"] = "z3: %s (%s)" % (r, self.solver.reason_unknown() if r == z3.unknown else "counter-model found")
-        if st == "discharged" and os.environ.get("QVC_CROSSCHECK") and not isinstance(goal, bool):
+        many_paths = bool(getattr(self.target, "budget", None) and self.target.budget.get("parallel"))
+        if st == "discharged" and os.environ.get("QVC_CROSSCHECK") and not isinstance(goal, bool) and \
+                not (many_paths and ".init" in kind):
             # thorough tier: an independent back end (z3 4.8.12 command line) must not contradict the verdict
             rec["second_backend"] = self._second_opinion(z3.Not(goal))
         fam = re.sub(r"(\.c\d+|#\d+)$", "", kind)
